@@ -61,6 +61,35 @@ var payloadShapes = [][]byte{{0, 0, 0, 1}, {0, 0, 1}, {0, 0, 0, 0}, {0xff, 0xf1}
 
 var shapeHits [16]int64
 
+// keeper holds on to the last few byte slices the packagers returned (encoded bodies, decoded payloads) and checks, at
+// every later call, that none of them has changed: what a call returned is the caller's, later calls must not touch it.
+type keeper struct {
+	items []keptBytes
+}
+
+type keptBytes struct {
+	got, want []byte
+	what      string
+	idx       int
+}
+
+func (k *keeper) keep(vc *detviol.Collector, m *mon.M, kind string, what string, idx int, got []byte) {
+	for _, it := range k.items {
+		if !bytes.Equal(it.got, it.want) {
+			vc.Violationf(idx, "c10:earlier-result-changed-by-a-later-call:"+kind, map[string]interface{}{"case": idx, "earlier_case": it.idx},
+				"%s returned for case %d (%d bytes) was changed by a later call on the same packager (now %s, was %s)", it.what, it.idx, len(it.want), mon.Hex(it.got), mon.Hex(it.want))
+			copy(it.got, it.want)
+		}
+	}
+	m.Count("earlier_results_rechecked", int64(len(k.items)))
+	if len(got) > 0 {
+		k.items = append(k.items, keptBytes{got, append([]byte(nil), got...), what, idx})
+		if len(k.items) > 6 {
+			k.items = k.items[1:]
+		}
+	}
+}
+
 func payload(r *vrand.Rand, n int) []byte {
 	b := r.Bytes(n)
 	if n == 0 || !r.Chance(1, 2) {
@@ -262,7 +291,7 @@ func observeAudio(m *mon.M, sn *seen, g *flv.AudioFrame) {
 	}
 }
 
-func checkAudio(m *mon.M, vc *detviol.Collector, sn *seen, ap flv.AudioPackager, c *aCase, r *vrand.Rand, idx int) {
+func checkAudio(m *mon.M, vc *detviol.Collector, sn *seen, ap flv.AudioPackager, kp *keeper, c *aCase, r *vrand.Rand, idx int) {
 	a := c.a
 	a.Payload = payload(r, c.plen)
 	scope := audioScope(&a)
@@ -313,6 +342,7 @@ func checkAudio(m *mon.M, vc *detviol.Collector, sn *seen, ap flv.AudioPackager,
 			vc.Violationf(idx, "c10:encoded-body-empty:audio"+scope, rep, "Encode(%s) returned no bytes", audioFrameString(f))
 			return
 		}
+		kp.keep(vc, m, "audio", "the body Encode", idx, b)
 		m.Classf("f/audio/b0=%02x/hdr%d/tr%02x/len%s", b[0], len(b)-c.plen, a.Trait, lenClass(c.plen))
 		sn.add("audio_first_byte_formats_distinct", int(b[0]>>4))
 		if bytes.Equal(b, ref) {
@@ -339,6 +369,7 @@ func checkAudio(m *mon.M, vc *detviol.Collector, sn *seen, ap flv.AudioPackager,
 			return
 		}
 		m.Count("frames_roundtrip_checked", 1)
+		kp.keep(vc, m, "audio", "the payload Decode", idx, g.Raw)
 		observeAudio(m, sn, g)
 		if d := diffAudio(g, &want); len(d) > 0 {
 			vc.Violationf(idx, "c10:roundtrip-differs:audio"+scope, rep, "Decode(Encode(f)) != f in %s: f = %s, body = %s, decoded = %s",
@@ -407,14 +438,15 @@ func TestVerif_C10_Audio(t *testing.T) {
 			return
 		}
 		r := m.Rand("audio", ci)
+		kp := &keeper{}
 		for i := ci * chunk; i < (ci+1)*chunk && i < total; i++ {
 			m.Case()
 			if i < len(cs) {
-				checkAudio(m, vc, sn, ap, &cs[i], r, i)
+				checkAudio(m, vc, sn, ap, kp, &cs[i], r, i)
 			} else {
 				c := randomAudio(r)
 				m.Count("random_cases", 1)
-				checkAudio(m, vc, sn, ap, &c, r, i)
+				checkAudio(m, vc, sn, ap, kp, &c, r, i)
 			}
 		}
 	})
@@ -520,7 +552,7 @@ func observeVideo(sn *seen, g *flv.VideoFrame) {
 	}
 }
 
-func checkVideo(m *mon.M, vc *detviol.Collector, sn *seen, vp flv.VideoPackager, c *vCase, r *vrand.Rand, idx int) {
+func checkVideo(m *mon.M, vc *detviol.Collector, sn *seen, vp flv.VideoPackager, kp *keeper, c *vCase, r *vrand.Rand, idx int) {
 	v := c.v
 	v.Payload = payload(r, c.plen)
 	scope := videoScope(&v)
@@ -568,6 +600,7 @@ func checkVideo(m *mon.M, vc *detviol.Collector, sn *seen, vp flv.VideoPackager,
 			vc.Violationf(idx, "c10:encoded-body-empty:video"+scope, rep, "Encode(%s) returned no bytes", videoFrameString(f))
 			return
 		}
+		kp.keep(vc, m, "video", "the body Encode", idx, b)
 		m.Classf("f/video/b0=%02x/hdr%d/tr%02x/len%s", b[0], len(b)-c.plen, v.PacketType, lenClass(c.plen))
 		sn.add("video_first_bytes_distinct", int(b[0]))
 		if bytes.Equal(b, ref) {
@@ -592,6 +625,7 @@ func checkVideo(m *mon.M, vc *detviol.Collector, sn *seen, vp flv.VideoPackager,
 			return
 		}
 		m.Count("frames_roundtrip_checked", 1)
+		kp.keep(vc, m, "video", "the payload Decode", idx, g.Raw)
 		observeVideo(sn, g)
 		if d := diffVideo(g, &want); len(d) > 0 {
 			vc.Violationf(idx, "c10:roundtrip-differs:video"+scope, rep, "Decode(Encode(f)) != f in %s: f = %s, body = %s, decoded = %s",
@@ -643,14 +677,15 @@ func TestVerif_C10_Video(t *testing.T) {
 			return
 		}
 		r := m.Rand("video", ci)
+		kp := &keeper{}
 		for i := ci * chunk; i < (ci+1)*chunk && i < total; i++ {
 			m.Case()
 			if i < len(cs) {
-				checkVideo(m, vc, sn, vp, &cs[i], r, i)
+				checkVideo(m, vc, sn, vp, kp, &cs[i], r, i)
 			} else {
 				c := randomVideo(r)
 				m.Count("random_cases", 1)
-				checkVideo(m, vc, sn, vp, &c, r, i)
+				checkVideo(m, vc, sn, vp, kp, &c, r, i)
 			}
 		}
 	})
